@@ -25,6 +25,11 @@ LOC = (PL, '_parameters')
 
 
 def run(cx: Cx):
+    check_build(cx)
+    check_declaration(cx)
+
+
+def check_build(cx: Cx):
     build = cx.fn(PL + '.build')
     self_s = Sym(build.params[0])
     params = Attr(self_s, '_parameters')
@@ -152,6 +157,9 @@ def run(cx: Cx):
     from .common import check_result_fresh
     check_result_fresh(cx, build.qualname)
 
+
+
+def check_declaration(cx: Cx):
     # ------------------------------------------------------------ declaration API
     addp = cx.fn(PL + '.add_parameter')
     remp = cx.fn(PL + '.remove_parameter')
@@ -170,6 +178,32 @@ def run(cx: Cx):
                 break
     else:
         cx.ok('R-GUARD', 'add_parameter accepts only str names', where=cx.where(addp), function=addp.qualname)
+    pinit = cx.fn(PL + '.__init__')
+    okc = True
+    ni = 0
+    for p in cx.walker.paths(pinit, WalkOptions(unroll=1, callee_raises=False)):
+        if p.end == 'raise':
+            continue
+        for it_ev in [e for e in p.events if e.kind == 'iter']:
+            ni += 1
+            info = it_ev.data['info']
+            key = info.get('index') if info.get('kind') == 'items' else info.get('var')
+            st = [e for e in p.events if e.kind == 'store' and e.data.get('loc') == LOC and e.data.get('store') == 'setitem'
+                  and e.data.get('key') == key and p.events.index(e) > p.events.index(it_ev)]
+            src = Sym(pinit.params[1]) if len(pinit.params) > 1 else None
+            vals = [Sub(src, key)] + ([Sub(info['seq'], info['index'])] if info.get('kind') == 'items' else [])
+            if not (len(st) == 1 and st[0].data.get('value') in vals):
+                okc = False
+                cx.violation('R-GUARD', pinit.qualname, 'constructor-declares-every-entry',
+                             f"ParameterList.__init__: an entry of the constructor dictionary is not declared as given on a path "
+                             f"[{p.cond!r}] (stores: {[(repr(e.data.get('key')), repr(e.data.get('value'))) for e in st]}): a legal "
+                             f"scalar value such as None would be dropped from every combination", where=cx.where(pinit, it_ev.line),
+                             path=p.lines())
+                break
+        if not okc:
+            break
+    if okc and ni:
+        cx.ok('R-GUARD', 'constructor declares every (string-keyed) entry exactly as given', where=cx.where(pinit), function=pinit.qualname)
     sites = cx.effects.sites_of(LOC)
     allowed = {PL + '.__init__', addp.qualname, remp.qualname}
     for s in sites:
